@@ -28,7 +28,7 @@ def full(s3):
 
 def min_margin(s3):
     """smallest distance of any decision quantity from its threshold (Angstrom / degrees)"""
-    from rnapolis import tertiary as T
+    from . import chem as T
     from rnapolis.tertiary import calculate_torsion_angle_coords as tor
     R = s3.residues
     m = [1.0]
@@ -127,6 +127,14 @@ def run(ctx):
     for name in files:
         bases = [("corpus", geo.snapped(geo.load3d(name)))]
         bases.append(("jitter", geo.jittered(bases[0][1], rng, 0.1)))
+        # incomplete bases: every third residue loses one base atom its normal does not need (a centroid taken over the atoms
+        # present must not start to depend on where the molecule sits)
+        gone = {}
+        for i_, r_ in enumerate(bases[0][1].residues):
+            spare = annot._SPARE.get(r_.one_letter_name)
+            if spare and i_ % 3 == 0:
+                gone[id(r_)] = rng.choice(spare)
+        bases.append(("thin-base", geo.rebuild(bases[0][1], keep_res=lambda i, r: True, keep_atom=lambda r, a: gone.get(id(r)) != a.name)))
         for bkind, base in bases:
             ref = full(base)
             mref = min_margin(base)
